@@ -5,7 +5,12 @@ set -e
 PATCH="$(realpath "$1")"; ID="$2"; TIER="${3:-quick}"
 D="$(mktemp -d /tmp/mut.XXXXXX)"
 trap 'rm -rf "$D"' EXIT
-rsync -a --exclude .git --exclude docs --exclude logs /repo/ "$D/repo/"
-(cd "$D/repo" && patch -p1 -s < "$PATCH")
+if [ -n "$BASE" ]; then
+  # seeds made against an older /repo commit: materialise that commit instead of the working tree
+  mkdir -p "$D/repo" && git -C /repo archive "$BASE" | tar -x -C "$D/repo"
+else
+  rsync -a --exclude .git --exclude docs --exclude logs /repo/ "$D/repo/"
+fi
+(cd "$D/repo" && patch -p1 -s < "$PATCH") || { echo "PATCH-DOES-NOT-APPLY (try BASE=<commit>)"; exit 2; }
 cd /verif
 VERIF_REPO="$D/repo" VERIF_EVIDENCE_DIR="$D/evidence" VERIF_REPLAY_DIR="$D/replays" ./check "$ID" --tier "$TIER"
